@@ -137,6 +137,8 @@ def register(reg, prog):
         reg.assume('A-COPYOPT: Message.copy copies the option views; the codec dictionary of the copy is not related to the original (A-OPTVIEW)')
         for name, ty in OPT_VIEWS.items():
             v = kw.pop(name) if name in kw else ex.read_field(st, so, name, ty)
+            if isinstance(v, VList):
+                v = ex.list_as_seq(st, v) if not getattr(v, 'pending', False) else VTuple([])
             ex.write_field(st, o, name, ty, v)
         ex.write_field(st, m, 'opt', MF['opt'], o)
         if kw:
